@@ -1,7 +1,7 @@
 (* val -> val front end of the fmt family (see harness/fmt.c and harness/fmtnum.c for the case syntax). *)
 From Coq Require Import List ZArith NArith Bool.
 From LA Require Import Base.Val Gen.Defines Gen.FmtLayout Fmt.FmtNumDefs Fmt.FmtTarDefs Fmt.FmtCpioDefs
-  Fmt.FmtArDefs Fmt.FmtWriteDefs.
+  Fmt.FmtArDefs Fmt.FmtWriteDefs Fmt.FmtParseDefs.
 Import ListNotations.
 Local Open Scope Z_scope.
 
@@ -130,10 +130,32 @@ Definition run_dec (l : list val) : val :=
           else if kind =? 8 then ar_atol8 b
           else 0)].
 
+(* (1 loc fmt opts flt bpb bilb <archive bytes> ...) -> ( (path link type mode uid gid size mtime uname gname rmaj rmin dmaj dmin ino nlink body)* ) | () *)
+Definition val_of_view (vb : pview * list Z) : val :=
+  let v := fst vb in
+  VL [VBz (pv_path v); VBz (pv_link v); VI (pv_type v); VI (pv_mode v); VI (pv_uid v); VI (pv_gid v); VI (pv_size v);
+      VI (pv_mtime v); VBz (pv_uname v); VBz (pv_gname v); VI (pv_rmaj v); VI (pv_rmin v); VI (pv_dmaj v); VI (pv_dmin v);
+      VI (pv_ino v); VI (pv_nlink v); VBz (snd vb)].
+
+Definition run_parse (l : list val) : val :=
+  let data := zb (bval (vnth l 7)) in
+  let fuel := S (length data / 76) in
+  let r := match fmt_of_name (bval (vnth l 2)) with
+           | Some Ustar => ustar_parse_archive fuel data
+           | Some Newc => cpio_parse_archive newc_parse_entry fuel data
+           | Some Odc => cpio_parse_archive odc_parse_entry fuel data
+           | _ => None
+           end in
+  match r with
+  | Some es => VL [VL (map val_of_view es)]
+  | None => VL []
+  end.
+
 Definition run (v : val) : val :=
   let l := lval v in
   let op := zval (vnth l 0) in
   if (op =? 0) || (op =? 2) then run_write l
+  else if op =? 1 then run_parse l
   else if op =? 10 then run_enc l
   else if op =? 11 then run_dec l
   else VErr 1.
